@@ -795,8 +795,101 @@ func c03QueueFile(n int, maxpend int, dotu bool) Scenario {
 	}}
 }
 
+// c03AcrossVersion: a request is still busy in the implementation when a Tversion
+// starts a new session; the new session uses its tag again for another slow request;
+// the old one finishes; the new one is flushed; the tag is used a third time. The third
+// request gets exactly one reply, its own; the second at most one.
+func c03AcrossVersion(dotu bool, maxpend, P int) Scenario {
+	var s *sess
+	name := fmt.Sprintf("tag used three times across a Tversion maxpend=%d dotu=%v", maxpend, dotu)
+	body := func() {
+		s = newSess(SrvOpt{Msize: 256, Dotu: dotu, Maxpend: maxpend, Flush: maxpend > 0})
+		s.fs.FlushMode = "ignore"
+		a := s.prepare("read", 30, 100)
+		b := s.prepare("read", 31, 100)
+		c := s.prepare("stat", 32, 100)
+		gA, gB := vs.NewSem(0), vs.NewSem(0)
+		s.fs.Script[reqKey{0, 100, 0}] = &Action{Gate: gA}
+		s.fs.Script[reqKey{0, 100, 1}] = &Action{Gate: gB}
+		s.fs.Script[reqKey{0, 100, 2}] = &Action{StatName: "the-third-request"}
+		s.c.Send(dotu, a)
+		vs.Idle()
+		ver := "9P2000"
+		if dotu {
+			ver = "9P2000.u"
+		}
+		if r := s.c.Version(256, ver); r == nil || r.Type != wire.Rversion {
+			vs.Fail("Tversion in mid-session answered by %v", r)
+		}
+		s.setupN = len(s.c.Collect())
+		vs.Window(true)
+		s.c.Send(dotu, b)
+		vs.Idle()
+		gA.Release()
+		vs.Idle()
+		s.c.Send(dotu, &wire.Msg{Type: wire.Tflush, Tag: 101, Oldtag: 100})
+		vs.Idle()
+		// a client may use the tag again as soon as the Rflush is there
+		early := false
+		for _, f := range s.c.Collect()[s.setupN:] {
+			if f.Msg != nil && f.Msg.Type == wire.Rflush && f.Msg.Tag == 101 {
+				early = true
+			}
+		}
+		if early {
+			s.c.Send(dotu, c)
+			vs.Idle()
+			gB.Release()
+			vs.Idle()
+		} else {
+			gB.Release()
+			vs.Idle()
+			s.c.Send(dotu, c)
+			vs.Idle()
+		}
+		vs.Window(false)
+		s.c.Collect()
+	}
+	check := stdCheck("C03", func(x *vs.Exec) *Viol {
+		frames := s.c.Frames[s.setupN:]
+		detail := map[string]any{"wire": strings.Split(framesString(frames), "\n"), "fslog": strings.Split(s.fs.logString(), "\n")}
+		var t100 []*wire.Msg
+		nflush := 0
+		for _, f := range frames {
+			if f.Msg == nil {
+				return &Viol{Sig: "C03/malformed-frame", Msg: f.Err, Detail: detail}
+			}
+			switch f.Msg.Tag {
+			case 100:
+				t100 = append(t100, f.Msg)
+			case 101:
+				nflush++
+			default:
+				return &Viol{Sig: "C03/stray-reply/across-version", Msg: fmt.Sprintf("reply for a tag with no outstanding request: %s", f.Msg), Detail: detail}
+			}
+		}
+		if nflush != 1 {
+			return &Viol{Sig: fmt.Sprintf("C03/rflush-count-%d/across-version", nflush), Msg: fmt.Sprintf("the Tflush got %d replies\n%s", nflush, framesString(frames)), Detail: detail}
+		}
+		// the last reply under the tag is the third request's; before it at most one (the second's)
+		if len(t100) == 0 || len(t100) > 2 {
+			return &Viol{Sig: fmt.Sprintf("C03/reply-count-%d/tag-used-three-times", len(t100)), Msg: fmt.Sprintf("tag 100 was used for a second request (flushed) and a third after the Tversion: %d replies carry it\n%s", len(t100), framesString(frames)), Detail: detail}
+		}
+		last := t100[len(t100)-1]
+		if last.Type != wire.Rstat || last.Stat.Name != "the-third-request" {
+			return &Viol{Sig: "C03/wrong-content/tag-used-three-times", Msg: fmt.Sprintf("the third request under the tag (a Tstat) was answered by %s\n%s", last, framesString(frames)), Detail: detail}
+		}
+		if len(t100) == 2 && t100[0].Type == wire.Rstat {
+			return &Viol{Sig: "C03/reply-count-2/third-request", Msg: "the third request under the tag got two replies\n" + framesString(frames), Detail: detail}
+		}
+		return nil
+	}, nil)
+	return vsScenario(&VsSpec{Name: name, Body: body, Check: check, P: P})
+}
+
 func c03Scenarios(tier string) []Scenario {
 	var out []Scenario
+	out = append(out, c03AcrossVersion(false, 0, 1), c03AcrossVersion(true, 2, 1))
 	out = append(out, c03QueueFile(5, 0, false), c03QueueFile(64, 2, true), c03QueueFile(300, 0, true), c03QueueFile(1000, 1, false))
 	if tier == "thorough" {
 		out = append(out, c03QueueFile(5000, 0, false))
